@@ -182,6 +182,10 @@ func (d *db) makeRoomForWrite() error {
 // switchToNewLog flushes the index of the current log file to disk, update the
 // readState hold by the db and then switch to a new log file.
 func (d *db) switchToNewLog() error {
+	// the log file must be durable before the index describing it is
+	if err := d.mu.logFile.Sync(); err != nil {
+		return err
+	}
 	if err := d.saveIndex(); err != nil {
 		return err
 	}
